@@ -115,11 +115,16 @@ end Spec
 
 def colon : UInt8 := 58
 
-/-- `strings.LastIndex(addr, ":")`, `-1 ↦ len(addr)`, `addr[:colonPos]` -/
-def hostPart (addr : List UInt8) : List UInt8 :=
-  match addr.reverse.dropWhile (· ≠ colon) with
-  | [] => addr                       -- no colon
-  | _ :: r => r.reverse              -- drop the last colon and what follows
+/-- the prefix before the LAST colon (`addr[:strings.LastIndex(addr, ":")]`), `none` if there is no colon -/
+def beforeLastColon : List UInt8 → Option (List UInt8)
+  | [] => none
+  | c :: cs =>
+    match beforeLastColon cs with
+    | some p => some (c :: p)
+    | none => if c = colon then some [] else none
+
+/-- `colonPos := strings.LastIndex(addr, ":")`; `-1 ↦ len(addr)`; `hostname := addr[:colonPos]` -/
+def hostPart (addr : List UInt8) : List UInt8 := (beforeLastColon addr).getD addr
 
 /-- result ServerName and whether a clone was made -/
 def tlsConfigForAddr (insecure : Bool) (serverName addr : List UInt8) : List UInt8 × Bool :=
@@ -144,7 +149,8 @@ def defaultApprovedAuthenticators : List String :=
     "com.scylladb.auth.TransitionalAuthenticator",
     "com.instaclustr.cassandra.auth.InstaclustrPasswordAuthenticator" ]
 
-def strBytes (s : String) : List UInt8 := s.toUTF8.toList
+/-- UTF-8 bytes of a string literal (kernel-reducible form of `String.toUTF8`) -/
+def strBytes (s : String) : List UInt8 := s.toList.flatMap String.utf8EncodeChar
 
 def effectiveList (allowed : List (List UInt8)) : List (List UInt8) :=
   if allowed.isEmpty then defaultApprovedAuthenticators.map strBytes else allowed
@@ -164,14 +170,16 @@ def plainToken (user pass : List UInt8) : List UInt8 := 0 :: user ++ 0 :: pass
 def challenge (p : PwAuth) (cls : List UInt8) : Option (List UInt8) :=
   if approve cls p.allowed then some (plainToken p.user p.pass) else none
 
-/-- Spec-side decoder of a PLAIN token with empty authzid -/
+/-- (bytes up to the next 0, bytes after it) -/
+def Spec.splitAtNul (r : List UInt8) : Option (List UInt8 × List UInt8) :=
+  match r.dropWhile (· != 0) with
+  | _ :: p => some (r.takeWhile (· != 0), p)
+  | [] => none
+
+/-- Spec-side decoder of a PLAIN token with empty authzid: 0 ‖ (bytes up to the next 0) ‖ 0 ‖ rest -/
 def Spec.decodePlain : List UInt8 → Option (List UInt8 × List UInt8)
-  | 0 :: r =>
-    let u := r.takeWhile (· ≠ 0)
-    match r.dropWhile (· ≠ 0) with
-    | _ :: p => some (u, p)
-    | [] => none
-  | _ => none
+  | [] => none
+  | z :: r => if z = 0 then Spec.splitAtNul r else none
 
 /-! ### connection start-up as a function of the frames the server answers with
     (conn.go `options` → `startup` → `authenticateHandshake`) -/
